@@ -810,6 +810,33 @@ M.contract('exactly_lib.impls.types.path.path_validator:PathDdvValidatorBase.val
            }, raises_only=())
 
 
+# ====================================================================================== D2: composite values
+# A value composed of parts is valid only if every part is: its validator is the conjunction of the validators of
+# ALL its parts (a part left out is never validated before execution: an invalid regex or integer inside it shows
+# as an error in the middle of the execution).  The generic composition of matchers on a property of the model
+# (`-selection`, `-with-pruned`, `contents`, `dir-contents`, `line-num`, `num-files`, ... are all instances):
+# the matcher of the property AND the getter of the property.  (After the seeded change C03-s6.)
+from exactly_lib.impls.types.matcher import property_matcher as _property_matcher
+
+
+class _WithValidatorI(Interface):
+    """a MatcherDdv / PropertyGetterDdv as far as validation is concerned"""
+    attrs = {'validator': Iface(ValidatorI)}
+
+
+M.contract('exactly_lib.impls.types.matcher.property_matcher:PropertyMatcherDdv.__init__',
+           params=dict(self=Inst(_property_matcher.PropertyMatcherDdv), matcher=Iface(_WithValidatorI),
+                       property_getter=Iface(_WithValidatorI), describer=Any_,
+                       get_int_interval_of_prop_matcher=Any_),
+           ensures={'validated iff the matcher of the property and the property getter both are':
+                    lambda self, matcher, property_getter:
+                    type(self._validator) is ddv_validators.AndValidator and len(self._validator.validators) == 2
+                    and self._validator.validators[0] is matcher.validator
+                    and self._validator.validators[1] is property_getter.validator,
+                    'the validator of the value is that conjunction': lambda self: self.validator is self._validator},
+           raises_only=())
+
+
 # ====================================================================================== E: symbols
 # "refers to an undefined or wrongly typed symbol ... VALIDATION_ERROR and nothing is executed": the checking of
 # symbol usages against the growing table and the type restrictions (direct and, transitively, indirect) are
